@@ -188,8 +188,9 @@ pub fn run(ctx: &Ctx) {
     documented_panics(ctx);
     let inputs = curated();
     let all = lattice_all(0, ALL_BITS);
-    let thresholds: Vec<(u32, u32)> = if thorough { vec![(1, 1), (2, 1), (1, 2), (3, 3)] } else { vec![(1, 1), (2, 2)] };
-    let sel: Vec<Vec<String>> = if thorough { inputs.clone() } else { inputs.iter().cloned().collect() };
+    let thresholds: Vec<(u32, u32)> = if thorough { vec![(1, 1), (2, 1), (1, 2), (3, 3)] } else { vec![(1, 1)] };
+    // quick: every 4th curated input x Lambda_full, all curated inputs x Lambda<=3; thorough: all x Lambda_full
+    let sel: Vec<Vec<String>> = if thorough { inputs.clone() } else { inputs.iter().enumerate().filter(|(i, _)| i % 4 == 0).map(|(_, v)| v.clone()).collect() };
     let njobs = sel.len() * all.len();
     par_for(njobs, |j| {
         let tcs = &sel[j / all.len()];
@@ -201,7 +202,18 @@ pub fn run(ctx: &Ctx) {
             valid_check(ctx, tcs, &Cfg::with(base.bits, *r, *l));
         }
     });
-    ctx.run.space(json!({"universe": "curated inputs", "sets": sel.len(), "settings": "Lambda_full: all 24,576 API-reachable boolean combinations", "settings_count": all.len(), "thresholds": format!("{:?} (non-default thresholds only with r)", thresholds)}));
+    ctx.run.space(json!({"universe": if thorough {"curated inputs"} else {"every 4th curated input"}, "sets": sel.len(), "settings": "Lambda_full: all 24,576 API-reachable boolean combinations", "settings_count": all.len(), "thresholds": format!("{:?} (non-default thresholds only with r)", thresholds)}));
+    if !thorough {
+        let k3 = lattice_le(0, ALL_BITS, 3);
+        par_for(inputs.len() * k3.len(), |j| {
+            let c = k3[j % k3.len()];
+            valid_check(ctx, &inputs[j / k3.len()], &c);
+            if c.has(R) {
+                valid_check(ctx, &inputs[j / k3.len()], &Cfg::with(c.bits, 2, 2));
+            }
+        });
+        ctx.run.space(json!({"universe": "all curated inputs", "sets": inputs.len(), "settings": "Lambda<=3 incl. u and c; thresholds (1,1) and, with r, (2,2)", "settings_count": k3.len()}));
+    }
     if thorough {
         let u = crate::space::Universe::new("U_ab3{a,b}", &["a", "b"], 3, 0, true);
         let k3 = lattice_le(0, ALL_BITS, 3);
